@@ -1,6 +1,6 @@
 """C01 — exactly-once handler delivery per (event, bus, handler)."""
 from .. import scenlib as S
-from ._common import flat, mk, t_tree
+from ._common import flat, matrix_jobs, mk, t_tree
 
 META = dict(
     explanation='One- and two-bus programs (handlers registered by class, by type-name string and by "*", sync and async, raising; '
@@ -34,4 +34,5 @@ def jobs(tier):
             mk('C01', 'fw/chain3', S.forward_chain(3, topo='chain', second_event=True), max_paths=8000),
             mk('C01', 'par', S.parallel_handlers(('A', 'B')), max_paths=8000),
         ]
+    out += matrix_jobs('C01', 'm1', tier)
     return flat(out)
